@@ -8,6 +8,15 @@
 struct vtm { int32_t sec, min, hour, mday, mon, year, wday, yday, isdst; int64_t gmtoff; const char* zone; };
 int64_t vll_tz_offset;
 static void fill(int64_t t, struct vtm* r){
+#if defined(__CPROVER__) && defined(VLL_TIME32)
+  /* queries whose instants provably stay in [0, 2^31): 32-bit division circuits (a quarter of the 64-bit ones); an
+   * instant outside is reported, never wrapped */
+  if (t < 0 || t > 2147483647) { vassert_at(0, 9302); __CPROVER_assume(0); }
+  uint32_t u = (uint32_t)t, d32 = u / 86400u, r32 = u % 86400u;
+  r->hour = (int32_t)(r32 / 3600u); r->min = (int32_t)((r32 % 3600u) / 60u); r->sec = (int32_t)(r32 % 60u);
+  r->mday = (int32_t)(d32 + 1); r->mon = 0; r->year = 70; r->yday = (int32_t)d32; r->wday = (int32_t)((d32 + 4) % 7u); r->isdst = 0;
+  return;
+#endif
   int64_t days = t / 86400, rem = t % 86400;
   if (rem < 0) { rem += 86400; days -= 1; }
   r->hour = (int32_t)(rem / 3600); r->min = (int32_t)((rem % 3600) / 60); r->sec = (int32_t)(rem % 60);
@@ -19,7 +28,7 @@ int64_t timegm(struct vtm* r){ int64_t t = unfill(r); fill(t, r); return t; }
 void* localtime_r(const int64_t* t, struct vtm* r){ fill(*t + vll_tz_offset, r); r->gmtoff = vll_tz_offset; r->zone = "LCL"; return r; }
 int64_t mktime(struct vtm* r){ int64_t t = unfill(r) - vll_tz_offset; fill(t + vll_tz_offset, r); return t; }
 
-/* strftime for the conversions quill's StringFromTime caches or passes through: %H %M %S %I %k %l %p %s %% and literal
+/* strftime for the conversions quill's StringFromTime caches or passes through: %H %M %S %I %k %l %p %s %u %% and literal
  * text (every other conversion is outside the model: reported).  Returns 0 when the buffer is too small, like libc. */
 static int put2(char* o, uint64_t max, uint64_t* n, int v, char pad){ if (*n + 2 >= max) return 0; o[(*n)++] = v < 10 ? pad : (char)('0' + v / 10); o[(*n)++] = (char)('0' + v % 10); return 1; }
 uint64_t strftime(char* out, uint64_t max, const char* fmt, const struct vtm* tm){
@@ -37,12 +46,16 @@ uint64_t strftime(char* out, uint64_t max, const char* fmt, const struct vtm* tm
     else if (c == 'p') { if (n + 2 >= max) return 0; out[n++] = tm->hour < 12 ? 'A' : 'P'; out[n++] = 'M'; }
     else if (c == '%') { if (n + 1 >= max) return 0; out[n++] = '%'; }
     else if (c == 's') {
-      int64_t t = unfill((struct vtm*)tm) - tm->gmtoff; char d[20]; int k = 0;
-      if (t == 0) d[k++] = '0';
-      while (t > 0 && k < 20) { d[k++] = (char)('0' + t % 10); t /= 10; }
-      if (n + (uint64_t)k >= max) return 0;
-      while (k > 0) out[n++] = d[--k];
+      /* ten-digit epochs only (2001-09-09 .. 2286): loop-free, anything else is outside the model and reported */
+      int64_t t = unfill((struct vtm*)tm) - tm->gmtoff;
+      if (t < 1000000000 || t > 9999999999) { vassert_at(0, 9301); return 0; }
+      if (n + 10 >= max) return 0;
+      uint64_t hi = (uint64_t)t / 100000, lo = (uint64_t)t % 100000;   /* two five-digit halves */
+      out[n + 0] = (char)('0' + hi / 10000); out[n + 1] = (char)('0' + hi / 1000 % 10); out[n + 2] = (char)('0' + hi / 100 % 10); out[n + 3] = (char)('0' + hi / 10 % 10); out[n + 4] = (char)('0' + hi % 10);
+      out[n + 5] = (char)('0' + lo / 10000); out[n + 6] = (char)('0' + lo / 1000 % 10); out[n + 7] = (char)('0' + lo / 100 % 10); out[n + 8] = (char)('0' + lo / 10 % 10); out[n + 9] = (char)('0' + lo % 10);
+      n += 10;
     }
+    else if (c == 'u') { if (n + 1 >= max) return 0; out[n++] = (char)('0' + (tm->wday == 0 ? 7 : tm->wday)); }   /* ISO weekday 1..7 */
     else { vassert_at(0, 9300); return 0; }      /* conversion outside the model */
   }
   out[n] = 0;
